@@ -3,6 +3,7 @@ import ShpanVerif.Spec.PipeDemand
 import ShpanVerif.Drive.C05Async
 import ShpanVerif.Drive.C05Query
 import ShpanVerif.Drive.C04Ext
+import ShpanVerif.Drive.C05Demand
 /-
 Driver handler for C05 (sequential part): laziness and bounded pulling.
 Spec predicate on the observation: nothing happens before the terminal (pre = 0), and for every probe source
@@ -35,6 +36,7 @@ def handle (c obs : String) : String × Bool × String :=
   if c.startsWith "A " then ShpanVerif.Drive.C05Async.handle c obs else
   -- "Q ..." cases: tsquery planning (Execute/Filter) must not touch any source, query family
   if c.startsWith "Q " then ShpanVerif.Drive.C05Query.handle c obs else
+  if c.startsWith "T " then ShpanVerif.Drive.C05Demand.handle c obs else   -- demand of joins / aligned timestamps
   if c.startsWith "L " then ShpanVerif.Drive.C04Ext.handle c obs else   -- broken-out Iterator loops (pulled = seen)
   match parseCase c with
   | none => ("bad-case", false, "unparsable case")
